@@ -40,7 +40,7 @@
   composition of all section round trips into `read (write d) = canon d` for whole objects, the binary
   MESHA/MESHB pair, and idempotence of `canonV` on reals (C02's domain).
 -/
-import PyTough.Proofs.T2DataTables
+import PyTough.Proofs.T2WholeKinds
 open Py Model Model.T2 Proofs Proofs.T2 Proofs.Incon
 open Gen.Sections (Rec)
 namespace Props.C01
@@ -417,6 +417,50 @@ theorem write_read_fixpoint {D F E : Type} (write : D → Except E F) (read : F 
     (d : D) (f1 f2 : F) (h1 : write d = .ok f1) (h2 : ∀ d1, read f1 = .ok d1 → write d1 = .ok f2) :
     ∀ d2, read f2 = .ok d2 → write d2 = .ok f2 :=
   fixpoint_of_roundtrip write read canon hrt hidem d f1 f2 h1 h2
+
+/-! ### whole objects: the composition of the section round trips -/
+
+/-- the object `read()` returns for the file `write()` made of `d` (`d'` is `d` as `write()` leaves it, i.e. with
+    `_sections` updated): the fresh object with the title as written (cut to 80 columns), then section by section in
+    the order of `d'._sections` the canonical value of that section's round-trip theorem (`stepCanon`), each section
+    recorded in `_sections`, and the end keyword -/
+abbrev canonWhole (d d' : T2Data) : T2Data :=
+  { canonFrom (stepCanon d') d'.sections (startObj d) with endKeyword := d.endKeyword }
+
+/-- **read (write d) = canon d for whole objects** — by induction over the object's section list, composing the
+    per-section round trips through the keyword loop (each reader, started on its section's text followed by a
+    continuation that begins with a keyword line, returns its canonical value and leaves the continuation; PARAM
+    hands the keyword line it read ahead back to the loop; ENDCY/ENDFI stops it).
+    `_partial`: the object's sections are restricted to the kinds in `wholeKinds` (ROCKS PARAM MOMOP START NOVER
+    ELEME CONNE GENER — decidable, `hkinds`), to the TOUGH2 flavour without SIMUL (`hsim`), the mesh in the file
+    (`hcfg`) and no extra-precision companion (`hxp`).  `hgood` collects the side conditions of the per-section
+    theorems, each on the reader's object at the moment the section is met (so blocks are resolved against the
+    rock types *read*, connections against the blocks *read*).  Missing: the other fifteen kinds (their
+    `section_roundtrip_…` theorems have the same shape; SHORT/FOFT/COFT/GOFT/DIFFU depend on earlier sections,
+    MULTI on `eos` stripping), AUTOUGH2 objects, the auxiliary files. -/
+theorem read_write_whole_partial (d : T2Data) (cfg : WriteCfg) (d' : T2Data) (f : Files) (hw : d.write cfg = .ok (d', f))
+    (hsim : d.simulator = []) (hxp : d.extraPrecision = []) (hcfg : cfg.mesh = .infile) (hend : IsEnd d.endKeyword)
+    (hkinds : d'.sections.all (wholeKinds.contains ·) = true)
+    (hgood : GoodFrom (stepCanon d') (GoodStep d') d'.sections (startObj d)) :
+    T2Data.read .default f = .ok (canonWhole d d') :=
+  whole_read_write d (stepCanon d') (GoodStep d') (· ∈ wholeKinds) wholeKinds_sections hsim hxp hend cfg hcfg d' f hw
+    (fun kw d0 hk hx hg => step_ok d' kw d0 hk hx hg)
+    (fun kw hk => by simpa using (List.all_eq_true.mp hkinds) kw hk) hgood
+
+/-- … and what was read has "the same sections in the same order" as what was written, and the end keyword -/
+theorem whole_sections_preserved (d d' : T2Data) :
+    (canonWhole d d').sections = d'.sections ∧ (canonWhole d d').endKeyword = d.endKeyword :=
+  ⟨by simpa [startObj, T2Data.empty] using canonFrom_sections (stepCanon d') (stepCanon_sections d') d'.sections (startObj d), rfl⟩
+
+/-- **the second write, for whole objects** (corollary): writing what was read from the first file is writing the
+    canonical object — `write (read (write d)) = write (canon d)`, with any arguments of the second `write` -/
+theorem write_read_write_whole_partial (d : T2Data) (cfg : WriteCfg) (d' : T2Data) (f : Files) (hw : d.write cfg = .ok (d', f))
+    (hsim : d.simulator = []) (hxp : d.extraPrecision = []) (hcfg : cfg.mesh = .infile) (hend : IsEnd d.endKeyword)
+    (hkinds : d'.sections.all (wholeKinds.contains ·) = true)
+    (hgood : GoodFrom (stepCanon d') (GoodStep d') d'.sections (startObj d)) (cfg2 : WriteCfg) :
+    (T2Data.read .default f).bind (fun d1 => d1.write cfg2) = (canonWhole d d').write cfg2 := by
+  rw [read_write_whole_partial d cfg d' f hw hsim hxp hcfg hend hkinds hgood]
+  rfl
 
 /-- reader and writer choose `param1` / `param1_autough2` and `multi` / `multi_autough2` by the same function
     of `simulator` -/
